@@ -72,7 +72,12 @@ def compile_obj(src, lang):
     return res
 
 
+HOSTS = progen.mod_hosts()
+
+
 def make_program(i):
+    if i <= -10:
+        return HOSTS[-10 - i][1], HOSTS[-10 - i][2]
     if i == -1:
         return 'C', progen.INACTIVE_UNBALANCED
     if i == -2:
@@ -203,6 +208,21 @@ def check(ctx):
         a = cfggen.joint(opts, jr, pool=pool)
         i = jr.choice(natives if (natives and jr.random() < 0.9) else good)
         tasks.append(('joint:%d:p%d' % (k, i), i, a))
+    # hand-written hosts (every shape the code-modifying passes look for, in every nesting context): all code-modifying and
+    # comment-rewriting options at every value (thorough: every swept option), and joint draws
+    cls = {o.name: o.cls for o in opts}
+    for h, (hname, hlang, htext) in enumerate(HOSTS):
+        ok, why = compile_obj(htext, hlang)
+        if not ok:
+            raise RuntimeError('host %s does not compile: %s' % (hname, why[:300]))
+        for name, val in sweep:
+            if quick and cls[name] == 'whitespace':
+                continue
+            tasks.append(('host:%s:%s=%s:p%d' % (hname, name, val, -10 - h), -10 - h, {name: val}))
+        for k in range(10 if quick else 100):
+            jr = fixed_rng(PROP, 'hostjoint:%s:%d' % (hname, k + (0 if quick else 10)))
+            tasks.append(('hostjoint:%s:%d:p%d' % (hname, k, -10 - h), -10 - h, cfggen.joint(opts, jr, pool=pool)))
+        ctx.count('hosts')
     # fixed case: unbalanced brackets inside an inactive '#if 0' branch (a valid program)
     tasks.append(('fixed:inactive-unbalanced:p-1', -1, {}))
     tasks.append(('fixed:inactive-garbage:p-2', -2, {}))
@@ -225,6 +245,8 @@ def check(ctx):
             if r.get('default_reject'):
                 optkey = 'default:p%s' % r['cid'].split(':p')[-1]
             key = '%s|%s|%s' % (kind, r['lang'], optkey or (r['cid'].split(':')[1] if r['cid'].startswith('fixed:') else r['cid']))
+            if r['cid'].startswith('host'):
+                key += '|' + r['cid'].split(':')[1]       # the nesting context is part of the root cause
             if key in seen:
                 continue
             seen.add(key)
